@@ -868,6 +868,10 @@ func (st *ServerType) serversFromPairings(
 				}
 				sort.SliceStable(errorSubrouteVals, func(i, j int) bool {
 					sri, srj := errorSubrouteVals[i].Value.(*caddyhttp.Subroute), errorSubrouteVals[j].Value.(*caddyhttp.Subroute)
+					if len(sri.Routes) == 0 || len(srj.Routes) == 0 {
+						// an empty handle_errors block contributes no routes; leave it where it is
+						return false
+					}
 					if len(sri.Routes[0].MatcherSetsRaw) == 0 && len(srj.Routes[0].MatcherSetsRaw) != 0 {
 						return false
 					}
